@@ -66,6 +66,7 @@ KNOWN_IDS = [
     "C12-binary-broadcast-non-2d",
     "C12-binary-1x1-operand-oob",
     "C12-reduce-negative-axis-not-normalised",
+    "C12-vector-ext-uninitialised-upper-lanes",
 ]
 
 
@@ -236,7 +237,7 @@ class C12(Prop):
     def exhaustive_space(self, tier):
         return ("6 contexts x 2 dtypes x {12 unary ops: n=1..4L+1 + 2-d shapes x 2 layouts + boundary values; 4 binary ops: n=1..4L+1 + 12 broadcast patterns x (n,m) around lane "
                 "multiples + layout pairs; reduce add/multiply/subtract: 1..3-d shapes x every axis/None/list x keepdims kinds x initial x 2 layouts (%s); outer add/multiply/subtract; "
-                "matmul (n,k)x(k,m) around lane multiples x 2 lhs layouts}" % ("full cross" if tier == "thorough" else "keepdims x initial rotated"))
+                "matmul (n,k)x(k,m) around lane multiples x 2 lhs layouts}" % ("full cross" if tier == "thorough" else "every keepdims kind without initial + one rotating kind with initial"))
 
     def exhaustive(self, tier):
         for ctx in CTXS:
@@ -326,11 +327,12 @@ class C12(Prop):
                             sel = [(None, None)]                      # only the default keepdims / no initial is instantiated for axis lists and integers
                         elif tier == "thorough":
                             sel = combos
+                        elif f == "subtract":
+                            rot += 1
+                            sel = [(self.KD[rot % 5], None)]
                         else:
                             rot += 1
-                            sel = [combos[rot % len(combos)], combos[(rot * 7 + 3) % len(combos)]]
-                            if (None, None) not in sel and rot % 2:
-                                sel.append((None, None))
+                            sel = [(kd, None) for kd in self.KD] + [(self.KD[rot % 5], 1.5)]
                         for kd, ini in sel:
                             data = lcg_data("r%s%s%s%s" % (ctx, dt, f, shape), prod(shape), dt, product=(f == "multiply"))
                             yield mk(ctx, f, "reduce", dt, operand(shape, data, layout), axis=axis, keepdims=kd, initial=ini)
@@ -464,6 +466,11 @@ class C12(Prop):
         form, f = case["form"], case["f"]
         a, b = case["a"], case.get("b")
         L = lanes(case["ctx"], case["dt"])
+
+        if case["ctx"] in VECTOR_CTXS and case["dt"] == "i32":
+            # vector_type_t is vector_size(bit_width / sizeof(T)) BYTES: twice the lanes for 4-byte elements, the upper half is never
+            # initialised; with int32 the garbage lanes overflow (UBSan, non-deterministic)
+            out.append("C12-vector-ext-uninitialised-upper-lanes")
 
         def col(o):   # column-major storage differs from row-major storage only with >= 2 non-unit extents
             return o is not None and o["layout"] == "col" and sum(1 for e in o["shape"] if e > 1) >= 2
